@@ -15,6 +15,33 @@ func (c20Labeler) LabelApp(appName, controls string, attrs map[string]*sysl.Attr
 	return appName
 }
 
+// c20Wrap nests a statement inside the block statement kind k (0 = not nested), after or
+// before another statement of the block.
+func c20Wrap(k int, s *sysl.Statement, last bool) *sysl.Statement {
+	act := &sysl.Statement{Stmt: &sysl.Statement_Action{Action: &sysl.Action{Action: "step"}}}
+	in := []*sysl.Statement{act, s}
+	if !last {
+		in = []*sysl.Statement{s, act}
+	}
+	switch k {
+	case 1:
+		return &sysl.Statement{Stmt: &sysl.Statement_Cond{Cond: &sysl.Cond{Test: "c", Stmt: in}}}
+	case 2:
+		return &sysl.Statement{Stmt: &sysl.Statement_Loop{Loop: &sysl.Loop{Mode: sysl.Loop_UNTIL, Criterion: "done", Stmt: in}}}
+	case 3:
+		return &sysl.Statement{Stmt: &sysl.Statement_LoopN{LoopN: &sysl.LoopN{Count: 2, Stmt: in}}}
+	case 4:
+		return &sysl.Statement{Stmt: &sysl.Statement_Foreach{Foreach: &sysl.Foreach{Collection: "c", Stmt: in}}}
+	case 5:
+		return &sysl.Statement{Stmt: &sysl.Statement_Group{Group: &sysl.Group{Title: "g", Stmt: in}}}
+	case 6:
+		return &sysl.Statement{Stmt: &sysl.Statement_Alt{Alt: &sysl.Alt{Choice: []*sysl.Alt_Choice{
+			{Cond: "x", Stmt: []*sysl.Statement{act}},
+			{Cond: "y", Stmt: in}}}}}
+	}
+	return s
+}
+
 func Harness_C20_SequenceUntidy() {
 	call := func(app, ep string) *sysl.Statement {
 		return &sysl.Statement{Stmt: &sysl.Statement_Call{Call: &sysl.Call{Target: &sysl.AppName{Part: []string{app}}, Endpoint: ep}}}
@@ -22,10 +49,22 @@ func Harness_C20_SequenceUntidy() {
 	tApp := []string{"B", "Nowhere"}[nd.IntRange("target-app", 0, 1)]
 	tEp := []string{"e", "missing"}[nd.IntRange("target-endpoint", 0, 1)]
 	startEp := []string{"e", "missing"}[nd.IntRange("start-endpoint", 0, 1)]
+	// the call sits directly in the start endpoint or inside a block statement of any kind,
+	// last in its block or not, the block last in the endpoint or not; the callee returns a
+	// payload or nothing
+	kind := nd.IntRange("call-inside", 0, 6)
+	lastInBlock := nd.Bool("call-last-in-block")
+	aStmts := []*sysl.Statement{c20Wrap(kind, call(tApp, tEp), lastInBlock)}
+	if nd.Bool("statement-after") {
+		aStmts = append(aStmts, &sysl.Statement{Stmt: &sysl.Statement_Action{Action: &sysl.Action{Action: "after"}}})
+	}
+	bStmts := []*sysl.Statement{{Stmt: &sysl.Statement_Action{Action: &sysl.Action{Action: "x"}}}}
+	if nd.Bool("callee-returns") {
+		bStmts = append(bStmts, &sysl.Statement{Stmt: &sysl.Statement_Ret{Ret: &sysl.Return{Payload: "ok"}}})
+	}
 	mod := &sysl.Module{Apps: map[string]*sysl.Application{
-		"A": {Name: &sysl.AppName{Part: []string{"A"}}, Endpoints: map[string]*sysl.Endpoint{"e": {Name: "e", Stmt: []*sysl.Statement{call(tApp, tEp)}}}},
-		"B": {Name: &sysl.AppName{Part: []string{"B"}}, Endpoints: map[string]*sysl.Endpoint{"e": {Name: "e", Stmt: []*sysl.Statement{
-			{Stmt: &sysl.Statement_Action{Action: &sysl.Action{Action: "x"}}}}}}},
+		"A": {Name: &sysl.AppName{Part: []string{"A"}}, Endpoints: map[string]*sysl.Endpoint{"e": {Name: "e", Stmt: aStmts}}},
+		"B": {Name: &sysl.AppName{Part: []string{"B"}}, Endpoints: map[string]*sysl.Endpoint{"e": {Name: "e", Stmt: bStmts}}},
 	}}
 	w := MakeSequenceDiagramWriter(false)
 	v := MakeSequenceDiagramVisitor(c20Labeler{}, c20Labeler{}, w, mod, "A", "", nil)
